@@ -12,7 +12,7 @@
 EXTENDS Emit
 
 Grid == IF Thorough THEN Shapes(3, 3) \cup Shapes(5, 2)
-        ELSE Shapes(2, 2) \cup {<<3>>, <<2, 3>>, <<3, 1, 2>>, <<1, 2, 1, 2>>, <<2, 1, 2, 1, 2>>, <<6>>, <<4, 5>>, <<2, 5, 3>>}
+        ELSE Shapes(2, 2) \cup {<<3>>, <<2, 3>>, <<3, 1, 2>>, <<1, 2, 1, 2>>, <<2, 1, 2, 1, 2>>, <<6>>, <<4, 5>>, <<2, 5, 3>>, <<17>>, <<18, 2>>}
 GridSeq == SetToSeq(Grid)
 Lrs == <<Q(1, 100), Zero, Q(-1, 2), Two, Q(1, 3)>>
 Descs == MyCases(Flatten2([i \in DOMAIN GridSeq |->
